@@ -101,6 +101,12 @@ loom::thread_local! {
 loom::lazy_static! {
     static ref LZ0: LzVal = LzVal::new(0);
     static ref LZ1: LzVal = LzVal::new(1);
+    // an initialiser with a scheduling point inside: another thread may run it as well in the meantime
+    static ref LZ2: LzVal = {
+        let v = LzVal::new(2);
+        loom::thread::yield_now();
+        v
+    };
 }
 
 pub enum Obj {
@@ -715,7 +721,8 @@ pub fn run_body(p: &'static Prog, t: &'static Table, b: usize, my_waker: Option<
             Op::LazyGet(k) => {
                 let v: &LzVal = match k {
                     0 => &LZ0,
-                    _ => &LZ1,
+                    1 => &LZ1,
+                    _ => &LZ2,
                 };
                 let x = v.cell.with(|p| unsafe { *p });
                 res(x.to_string());
